@@ -240,6 +240,15 @@ def gen_cases(tier: str, seed: int):
             case["hostile"] = True
             case["frac"] = float(np.exp(rng.uniform(np.log(0.5), np.log(5.0))))
             case["mom_scale"] = float(rng.uniform(1.0, 4.0))
+        if case["kind"] == "steps" and i % 10 == 7:
+            # Gaussian-split systems advance their linear part exactly, so steps beyond a quarter period of the stiffest
+            # metric direction (omega dt > pi / 2, where cos(omega dt) changes sign) are legitimate
+            case["spec"] = dict(spec, sys="gaussian_constrained", constr=["hyperplane", "sphere", "hyperplanes2", "quadric"][(i // 10) % 4])
+            if case["spec"]["constr"] == "hyperplanes2":
+                case["spec"]["dim"] = max(case["spec"]["dim"], 3)
+            case["ispec"] = dict(ispec, n_inner_step=1)
+            case["ispec"].pop("solver_kwargs", None)  # default iteration budget
+            case["quarter_period"] = float(rng.uniform(1.1, 1.9))  # omega_max * dt in units of pi / 2
         if case["kind"] == "chain":
             case["frac"] = float(np.exp(rng.uniform(np.log(0.05), np.log(0.9))))
             case["transition"] = ["static", "multinomial", "slice"][i % 3]
@@ -257,6 +266,9 @@ def run_case(case, obs) -> None:
     q, p = m.random_point(rng)
     p = p * case.get("mom_scale", 1.0)
     eps = case["frac"] / intgen.frequency(m, q, curvature=not case.get("hostile", False))
+    if case.get("quarter_period"):
+        eps = case["quarter_period"] * (np.pi / 2) * float(np.sqrt(np.min(np.linalg.eigvalsh(m.metric_dense))))
+        obs.count("beyond_quarter_period_cases")
     ispec["step_size"] = eps
     integ = zoo.make_integrator(m, ispec)
     sname = {"newton": "solve_projection_onto_manifold_newton", "quasi_newton": "solve_projection_onto_manifold_quasi_newton",
